@@ -122,7 +122,7 @@ def run(harnesses, jobs=16, harness_timeout=900, extra_args=(), overall_timeout=
         res = results[hid]
         res.duration_s = r.get("duration_ms", 0) / 1000.0
         res.stats = {k: v for k, v in (stats.get(hid) or {}).items()
-                     if k in ("runtime_symex_s", "runtime_solver_s", "runtime_decision_procedure_s",
+                     if v is not None and k in ("runtime_symex_s", "runtime_solver_s", "runtime_decision_procedure_s",
                               "runtime_convert_ssa_s", "vccs_generated", "vccs_remaining", "size_program_expression")}
         checks = r.get("checks", [])
         res.n_checks = len(checks)
